@@ -13,7 +13,7 @@ CLAIMS = {
         "self.solutions, provenance of solve's return value, state_is_valid_or_enqueue / SolutionState.complete), that every queued state went through "
         "establish_invariant (DNF), that the elimination chain is well-typed and ordered, that free instantiation happens only when the remaining constraint is "
         "true, that no elimination step forgets pending conjuncts (whole-constraint provenance of every constructed SolutionState) and that tree/constraint are "
-        "substituted coherently. Does NOT decide that the individual elimination steps preserve meaning nor grammar-validity of closed trees.",
+        "substituted coherently, that variables leave the SMT language-constraint class only while every substitution tree is an open leaf, and that hand-written memos in solver.py are keyed by everything the cached computation reads. Does NOT decide that the individual elimination steps preserve meaning nor grammar-validity of closed trees.",
         note="Trusted: DerivationTree.is_open/is_complete, Formula.__eq__, asserts enabled, each rewrite's semantic correctness.",
         technique=TECH + "who-may-write + return provenance, gate dominance, whole-vs-element def-use provenance of constructed states",
         design="5/C01",
@@ -21,7 +21,7 @@ CLAIMS = {
     "C10": dict(
         text="Weakest level (gate only): rejection is total (every yield/return of parse dominated by 'whole text consumed' and 'finished start item'), the "
         "start symbol handed to chart_parse has a single alternative (auxiliary start symbol for grammars with several start alternatives), coalescing merges "
-        "only adjacent terminals, and ISLaSolver.parse's plumbing. Does NOT decide correctness of the Earley chart.",
+        "only adjacent terminals, the nullable set is the recognised least fixed point, and ISLaSolver.parse's plumbing (the parser runs exactly once, on the argument string itself). Does NOT decide correctness of the Earley chart.",
         note="Trusted: chart construction and forest extraction.",
         technique=TECH + "gate dominance via path facts, arity invariant of star-unpacked alternatives",
         design="5/C10",
@@ -37,14 +37,14 @@ CLAIMS = {
     ),
     "C12": dict(
         text="Weakest level (gate only): expand_tree returns only closed trees, expansion happens only at open leaves with the node's own alternatives and siblings "
-        "kept, swap only between equally labelled disjoint subtrees, replacement/generalisation re-open with the same label and close with the fuzzer.",
+        "kept, swap only between equally labelled disjoint subtrees, replacement/generalisation re-open with the same label and close with the fuzzer; memo tables of mutator/fuzzer are keyed by all state they depend on (no class-level dict shared between instances for different grammars).",
         note="Trusted: asserts enabled; replace_path (C16).",
         technique=TECH + "gate dominance and shape recognition",
         design="5/C12",
     ),
     "C13": dict(
         text="Weakest level (gate only): every tree appended to insert_tree's result is dominated by the validity, all-original-nodes-retained and "
-        "inserted-tree-contained checks; all three insertion methods feed only through that gate under their own method bits.",
+        "inserted-tree-contained checks; all three insertion methods feed only through that gate under their own method bits; the context-addition filter quantifies over every host node; the wrapper tree follows a non-trivial derivation path and continues it through exactly one child chosen by position.",
         note="Trusted: asserts enabled; grammar_graph.tree_is_valid.",
         technique=TECH + "who-may-write the result list + gate dominance",
         design="5/C13",
@@ -52,14 +52,14 @@ CLAIMS = {
     "C14": dict(
         text="Weakest level (gate only): create_fixed_length_tree returns only closed trees under curr_len == target_length with the recognised length bookkeeping; "
         "count proposes replacements only with the exact needle count and no needle-reaching open leaf; numeric model values are returned only as parse "
-        "results for the variable's nonterminal.",
+        "results for the variable's nonterminal, and the parsed text denotes the model value in both sign cases (abstract interpretation: [+]?0*digits / -0*digits).",
         note="Trusted: numeric bookkeeping for every grammar is not decided.",
         technique=TECH + "gate dominance via path facts (incl. for-else), shape recognition of the bookkeeping expression",
         design="5/C14",
     ),
     "C18": dict(
         text="Decides the plumbing between check/parse/repair/mutate: exact exception handling in check(str), the SemanticError condition of parse, provenance of "
-        "everything repair/mutate return (checked input or a solve() of a copy of this solver with the same formula/grammar).",
+        "everything repair/mutate return, parse applied once to the argument string itself (checked input or a solve() of a copy of this solver with the same formula/grammar).",
         note="Trusted: evaluate (C03) and solve (C01).",
         technique=TECH + "handler/gate recognition and return provenance",
         design="5/C18",
@@ -132,8 +132,9 @@ CLAIMS = {
     "C17": dict(
         text="Decides that serialisers have no write effect on the live object (incl. through aliases of self.__dict__), that stripped cache fields are stripped "
         "on every node and re-created by the reader, that the quote escape of smt_expr_to_str is undone by every reader before z3.parse_smt2_string and no "
-        "reader replace() is a no-op, that __setstate__ only reads keys __init__ provides, and that the CLI JSON writer/reader are inverse incl. None-vs-[] "
-        "children. Does NOT decide equality of the round trip for every string (non-ASCII goes through Z3's own parser).",
+        "reader replace() is a no-op, that __setstate__ only reads keys __init__ provides, that the CLI JSON writer/reader are inverse incl. None-vs-[] "
+        "children, and that every text handed to z3.parse_smt2_string has its non-ASCII characters escaped and every as_string() result is unescaped (sanitiser flow). "
+        "Known finding: the escape character itself is not escaped. Does NOT decide equality of the round trip for every string.",
         note="Trusted: SMT-LIB 2.6 string-literal syntax in z3.parse_smt2_string; json module.",
         technique=TECH + "effect/alias analysis (serializer purity), writer/reader escape-pair agreement by constant folding, field coverage",
         design="5/C17",
@@ -142,7 +143,7 @@ CLAIMS = {
         text="Decides the CLI's own plumbing: exit-code constants and every exit site, DATA_FORMAT_ERROR handlers around all grammar/constraint parsing with an "
         "error message, USAGE_ERROR for missing grammar/constraint/input, conjunction of all constraints, exit code 0 of check/parse only after "
         "solver.check(tree) held on the tree obtained from the input, and totality of input-text handling (no unguarded indexing; functions applied to "
-        "input-derived data run inside safe()). Does NOT decide that solve output is accepted by check (C01/C03) nor UnknownResultError (inventoried).",
+        "input-derived data run inside safe()), JSON tree recognised before text parsing and only under tree_is_valid, at most one trailing newline removed from the input file, every file read guarded against UnicodeDecodeError, grammars with undefined nonterminals rejected with 65, and a generic handler around solver.check. Does NOT decide that solve output is accepted by check (C01/C03).",
         note="Trusted: argparse exits with 2 on option errors; SystemExit is not an Exception; returns.safe/.map/.lash semantics.",
         technique=TECH + "exit-site classification, try/handler dominance, path facts for gates, may-raise summary of pipeline stages",
         design="5/C19",
@@ -160,7 +161,7 @@ CLAIMS = {
     "C04": dict(
         text="Decides that the registry binds exactly the documented predicate names/arities (read from sphinx/islaspec.rst) to distinct implementations of "
         "matching arity, that same_position/different_position/inside/direct_child/before/after are the specified path relations on recognised shapes "
-        "(after = converse of before for ALL pairs incl. ancestor/descendant), and that predicates are pure. Does NOT decide nth/consecutive/level.",
+        "(after = converse of before for ALL pairs incl. ancestor/descendant), that predicates are pure, the nth domain, the path frames of consecutive (violated today: known finding), and level: anchor prefixes plus the five operator conditions compared as truth tables. Does NOT decide nth/consecutive beyond these shapes.",
         note="Trusted: the table in the specification; paths as tuples of child indices.",
         technique=TECH + "spec-table vs registry agreement, normalised-AST recognition of path relations, purity (no writes to parameters)",
         design="5/C04",
@@ -168,7 +169,7 @@ CLAIMS = {
     "C15": dict(
         text="Decides that 'not recognised' (Nothing) can never be turned into a positive match (no truthy thunk defaults in boolean positions), that the "
         "partial(handler, fallback) chain is acyclic, complete, correctly typed and ends in Nothing, and that compress_concatenation_elements only emits "
-        "elements of the current group under the star/plus guards. Does NOT decide exactness of interval bounds.",
+        "elements of the current group under the star/plus guards, interval merging keeps the larger upper bound, and the interval cache key is not a lossy rendering. Does NOT decide exactness of interval bounds.",
         note="Trusted: returns.Maybe.value_or semantics; z3 regex operator kinds.",
         technique=TECH + "API-misuse lint tied to the property (value_or thunk), handler-chain wiring analysis, provenance of result elements",
         design="5/C15",
@@ -176,7 +177,7 @@ CLAIMS = {
     "C20": dict(
         text="Decides the octal/decimal clause: a radix-tag (dimension) analysis over the octal_to_dec_* family proves octal strings are read in base 8, "
         "decimal strings in base 10, oct() only applied to decimal-side numbers, compared values are integers, replacement trees use the parser of the "
-        "target radix; plus dispatch-table arity/coverage/argument order. Does NOT decide count/crop/just numeric meaning.",
+        "target radix; plus dispatch-table arity/coverage/argument order; crop/ljust/rjust: replacement text is the prefix/suffix slice of exactly the requested width (no s[-n:] with possibly-zero n), verdict True exactly at len == width / len <= width. Does NOT decide count (see C14).",
         note="Trusted: parameter names octal/decimal are the documented roles.",
         technique=TECH + "three-tag radix/dimension dataflow, dispatch-table arity",
         design="5/C20",
